@@ -11,6 +11,7 @@ from vf.monitor import Probes
 from vf.gen import url as G
 from vf.gen import spell as S
 
+MIN_RANDOM = 150  # random iterations run per shard whatever the wall-clock budget (floors must not depend on machine load)
 SHARDS = {"quick": 4, "thorough": 16}
 BUDGET = {"quick": 22, "thorough": 240}
 MIN_CASES = {"quick": 8000, "thorough": 200000}
@@ -402,7 +403,7 @@ def run(ctx):
         names = list(CASE_T)
         n = 0
         lim = 5000 if ctx.tier == "quick" else 10 ** 7
-        while ctx.time_left() and n < lim:
+        while (ctx.time_left() or n < MIN_RANDOM) and n < lim:
             n += 1
             h, (p, tr), q, f = rng.choice(grid)
             base = G.base_case(host=h, path=copy.deepcopy(p), trailing=tr, query=copy.deepcopy(q), fragment=copy.deepcopy(f), scheme=rng.choice(["http://", "https://", ""]))
